@@ -34,8 +34,11 @@ class Roles(dict):
     """TensorParameter -> role, in creation order."""
 
 
+_FROZEN = [False]  # set by build_layer while a layer marked "frozen" is being built
+
+
 def _tp(roles: Roles, shape, role, dtype=DataType.REAL) -> P.TensorParameter:
-    t = P.TensorParameter(*shape, initializer=NormalInitializer(), dtype=dtype)
+    t = P.TensorParameter(*shape, initializer=NormalInitializer(), dtype=dtype, learnable=not _FROZEN[0])
     roles[t] = role
     return t
 
@@ -48,6 +51,14 @@ def _param(roles, shape, role, wrap=None, dtype=DataType.REAL) -> P.Parameter:
 
 
 def build_layer(spec: dict, built: list, roles: Roles, cplx: bool = False):
+    _FROZEN[0] = bool(spec.get("frozen"))
+    try:
+        return _build_layer(spec, built, roles, cplx)
+    finally:
+        _FROZEN[0] = False
+
+
+def _build_layer(spec: dict, built: list, roles: Roles, cplx: bool = False):
     t = spec["t"]
     wdt = DataType.COMPLEX if cplx else DataType.REAL
     share = spec.get("share")
